@@ -1275,6 +1275,54 @@ Proof.
   intros E. unfold executed. rewrite E, map_app, map_rev, map_map. cbn [fst]. rewrite map_id. reflexivity.
 Qed.
 
+(** A sequence of takes after which nothing within the horizon is left has
+    executed exactly the events that were pending or got scheduled meanwhile,
+    were not cancelled while pending and lie within the horizon. *)
+Lemma runs_complete p s evs s1 :
+  Inv s -> Acct s -> runs p s evs s1 -> head_beyond s1 ->
+  exists newc,
+    executed s1 = rev evs ++ executed s
+    /\ created s1 = created s ++ newc
+    /\ (forall e, In e evs -> In e (pend s) \/ In e newc)
+    /\ (forall e, In e (pend s) \/ In e newc ->
+          (In e evs <-> (~ In e (cancelled s1) /\ beyond s e = false)))
+    /\ (forall e, In e (pend s1) -> beyond s e = true).
+Proof.
+  intros HI HA H1 HB.
+  pose proof (runs_facts _ _ _ _ H1) as F. pose proof (runs_flow _ _ _ _ H1) as W.
+  destruct (rf_bound _ _ _ F) as (Fb&Fi&Fr&Fp&_).
+  pose proof (rf_inv _ _ _ F HI) as HI1. pose proof (rf_acct _ _ _ F HI HA) as HA1.
+  destruct (rw_created _ _ _ W) as [newc [Ecr Gcr]].
+  assert (Hex : executed s1 = rev evs ++ executed s).
+  { apply executed_after_runs. apply (rf_trace _ _ _ F). }
+  assert (Hbey : forall e, In e (pend s1) -> beyond s e = true).
+  { intros e He. rewrite <- (beyond_eq s s1 e Fb Fi). apply head_beyond_all; auto. }
+  assert (Hfrom : forall e, In e evs -> In e (pend s) \/ In e newc).
+  { intros e He. destruct (rw_from _ _ _ W e He) as [Q|[Q Qn]]; auto. right.
+    rewrite Ecr in Q. eapply fresh_is_new; eauto. apply (inv_cre _ HI). }
+  exists newc. split; [exact Hex|]. split; [exact Ecr|]. split; [exact Hfrom|]. split; [|exact Hbey].
+  intros e H. split.
+  - intros Hev. split.
+    + intros Hc. assert (In e (executed s1)) by (rewrite Hex; apply in_or_app; left; apply -> in_rev; auto).
+      apply (proj2 (Inv_disjoint s1 e HI1)); auto.
+    + pose proof (rw_within _ _ _ W) as Wn. rewrite Forall_forall in Wn. auto.
+  - intros [Hnc Hb].
+    assert (Hl : In e (live s1)).
+    { destruct H as [Q|Q].
+      - apply (rw_live _ _ _ W HI HA). unfold live. apply in_or_app. left; auto.
+      - apply HA1. rewrite Ecr. apply in_or_app. right; auto. }
+    unfold live in Hl. apply in_app_or in Hl. destruct Hl as [Hl|Hl].
+    { rewrite (Hbey e Hl) in Hb. discriminate. }
+    apply in_app_or in Hl. destruct Hl as [Hl|Hl]; [|contradiction].
+    rewrite Hex in Hl. apply in_app_or in Hl. destruct Hl as [Hl|Hl]; [apply in_rev; auto|].
+    exfalso. destruct H as [Q|Q].
+    + apply (proj1 (proj1 (Inv_disjoint s e HI) Q)). exact Hl.
+    + pose proof (inv_ids _ HI) as Ids. rewrite Forall_forall in Ids.
+      assert (ev_id e < nid s).
+      { apply Ids. unfold ids, live. apply in_map. apply in_or_app. right. apply in_or_app. left; auto. }
+      rewrite Forall_forall in Gcr. specialize (Gcr e Q). cbn in Gcr. lia.
+Qed.
+
 (** A run that reaches the end of its horizon (the loop leaves through the
     bound test; with the bound at the replication end this is observable as
     the replication state ENDING) has executed exactly the events that were
@@ -1295,53 +1343,25 @@ Theorem run_loop_complete p fuel s :
 Proof.
   intros HI HA R Hps Hend s'.
   destruct (run_loop_runs p fuel s) as [evs [s1 [H1 H2]]]. fold s' in H2, Hend.
-  pose proof (runs_facts _ _ _ _ H1) as F. pose proof (runs_flow _ _ _ _ H1) as W.
+  pose proof (runs_facts _ _ _ _ H1) as F.
   destruct (rf_bound _ _ _ F) as (Fb&Fi&Fr&Fp&_).
-  pose proof (rf_inv _ _ _ F HI) as HI1. pose proof (rf_acct _ _ _ F HI HA) as HA1.
   assert (Hps1 : ps s1 = PStarted) by congruence.
   destruct H2 as [R1 E|R1 HB E|R1 E].
   { exfalso. rewrite E, Hps1 in Hend. discriminate. }
   2: { exfalso. rewrite E in Hend. unfold raise_flag in Hend. ssimpl. rewrite Hps1 in Hend. discriminate. }
   assert (Ecore : core_eq s1 s') by (rewrite E; apply stop_at_bound_core).
   destruct Ecore as (Ep&En&Ec&Et&Ex&Er).
-  assert (HI' : Inv s') by (rewrite E; apply stop_at_bound_inv; auto).
-  assert (HA' : Acct s') by (eapply Acct_core; [|exact HA1]; rewrite E; apply stop_at_bound_core).
-  assert (Lv' : live s1 = live s') by (apply live_core; rewrite E; apply stop_at_bound_core).
-  destruct (rw_created _ _ _ W) as [newc [Ecr Gcr]].
-  assert (Hex : executed s' = rev evs ++ executed s).
-  { apply executed_after_runs. rewrite <- Et. apply (rf_trace _ _ _ F). }
-  assert (Hbey : forall e, In e (pend s') -> beyond s e = true).
-  { intros e He. rewrite <- Ep in He. rewrite <- (beyond_eq s s1 e Fb Fi).
-    apply head_beyond_all; auto. }
-  assert (Hfrom : forall e, In e evs -> In e (pend s) \/ In e newc).
-  { intros e He. destruct (rw_from _ _ _ W e He) as [Q|[Q Qn]]; auto. right.
-    rewrite Ecr in Q. eapply fresh_is_new; eauto. apply (inv_cre _ HI). }
-  exists evs, newc. repeat split; auto.
-  - rewrite <- Ec. exact Ecr.
-  - rewrite E. unfold stop_at_bound. cbv zeta.
-    match goal with |- context [if ?c then _ else _] => destruct c end; ssimpl; auto.
-  - rewrite E in Hend. unfold stop_at_bound in Hend. cbv zeta in Hend.
+  destruct (runs_complete p s evs s1 HI HA H1 HB) as [newc (A1&A2&A3&A4&A5)].
+  exists evs, newc. unfold executed in *. rewrite <- Et, <- Ec, <- Ex, <- Ep.
+  split; [exact A1|]. split; [exact A2|]. split.
+  { rewrite E. unfold stop_at_bound. cbv zeta.
+    match goal with |- context [if ?c then _ else _] => destruct c end; ssimpl; auto. }
+  split.
+  { rewrite E in Hend. unfold stop_at_bound in Hend. cbv zeta in Hend.
     destruct (Z.geb_spec (bound s1) (end_time s1)) as [G|G].
     + unfold end_time in *. rewrite Fr, Fb in G. lia.
-    + ssimpl. rewrite Hps1 in Hend. discriminate.
-  - intros Hc. assert (In e (executed s')) by (rewrite Hex; apply in_or_app; left; apply -> in_rev; auto).
-    apply (proj2 (Inv_disjoint s' e HI')); auto.
-  - pose proof (rw_within _ _ _ W) as Wn. rewrite Forall_forall in Wn. auto.
-  - intros [Hnc Hb].
-    assert (Hl : In e (live s')).
-    { destruct H as [Q|Q].
-      - rewrite <- Lv'. apply (rw_live _ _ _ W HI HA). unfold live. apply in_or_app. left; auto.
-      - apply HA'. rewrite <- Ec, Ecr. apply in_or_app. right; auto. }
-    unfold live in Hl. apply in_app_or in Hl. destruct Hl as [Hl|Hl].
-    { rewrite (Hbey e Hl) in Hb. discriminate. }
-    apply in_app_or in Hl. destruct Hl as [Hl|Hl]; [|contradiction].
-    rewrite Hex in Hl. apply in_app_or in Hl. destruct Hl as [Hl|Hl]; [apply in_rev; auto|].
-    exfalso. destruct H as [Q|Q].
-    + apply (proj1 (proj1 (Inv_disjoint s e HI) Q)). exact Hl.
-    + pose proof (inv_ids _ HI) as Ids. rewrite Forall_forall in Ids.
-      assert (ev_id e < nid s).
-      { apply Ids. unfold ids, live. apply in_map. apply in_or_app. right. apply in_or_app. left; auto. }
-      rewrite Forall_forall in Gcr. specialize (Gcr e Q). cbn in Gcr. lia.
+    + ssimpl. rewrite Hps1 in Hend. discriminate. }
+  auto.
 Qed.
 
 (* ------------------------------------------------------------------ *)
